@@ -590,7 +590,7 @@ pub fn run(ctx: &Ctx) -> ! {
          string compared across all routes (Eq/Ord/Hash/const_eq vs str, vs a second string), or a byte/archive input that \
          some decoder accepted, or any edited archive",
         case,
-        ctx.pick(120_000, 3_000_000),
+        ctx.pick(120_000, 2_400_000),
         check,
     );
     rep.finish()
